@@ -898,6 +898,14 @@ def trimesh_method(eng, callee, a, m, fc):
     ob = eng.observers.get('trimesh_' + name)
     if ob:
         return ob(eng, callee, a)
+    if name == 'local_aabb':
+        vs = [vec_of(p) for p in tm[0].items]
+        mn, mx = list(vs[0]), list(vs[0])
+        for v in vs[1:]:
+            mn = [f_min(x, y) for x, y in zip(mn, v)]
+            mx = [f_max(x, y) for x, y in zip(mx, v)]
+        bb = Struct('Aabb', [pt(mn), pt(mx)])
+        return Ref(lambda: bb) if 'local_aabb' in callee and False else bb
     raise Unsupported('TriMesh method ' + name + ' (parry; needs a contract observer)')
 
 
